@@ -149,6 +149,8 @@ type builder struct {
 	realmOn  map[string]bool
 	maxOps   int
 	maxSess  int
+	reserve  int // sessions the shape template will still add
+	realmC   map[int]string
 }
 
 func newBuilder(r *rng, prop, shape string, seed uint64, thorough bool) *builder {
@@ -187,6 +189,9 @@ func (b *builder) realmOf(s int) string {
 		return b.h.Sessions[s].Realm
 	}
 	// joined later: find the join op
+	if v, ok := b.realmC[s]; ok {
+		return v
+	}
 	k := len(b.h.Sessions)
 	var realm string
 	flatOps(b.h.Ops, func(o *Op, _ bool) {
@@ -197,6 +202,12 @@ func (b *builder) realmOf(s int) string {
 			k++
 		}
 	})
+	if realm != "" {
+		if b.realmC == nil {
+			b.realmC = map[int]string{}
+		}
+		b.realmC[s] = realm
+	}
 	return realm
 }
 
@@ -361,7 +372,7 @@ func (b *builder) randomOp(inBurst bool) (Op, bool) {
 			}
 			return Op{Op: "drop", S: s}, true
 		case k < 85:
-			if len(b.alive) >= b.maxSess || inBurst && b.anyStalled() && b.c06 {
+			if len(b.alive)+b.reserve >= b.maxSess || inBurst && b.anyStalled() && b.c06 {
 				continue
 			}
 			realm := b.h.Realms[r.intn(len(b.h.Realms))]
@@ -402,7 +413,7 @@ func (b *builder) randomOp(inBurst bool) (Op, bool) {
 			}
 			return Op{Op: "sleep", Ms: sleeps[r.intn(len(sleeps))]}, true
 		default:
-			if !b.c06 || inBurst && b.anyStalled() || len(b.alive) >= b.maxSess {
+			if !b.c06 || inBurst && b.anyStalled() || len(b.alive)+b.reserve >= b.maxSess {
 				continue
 			}
 			b.track(false)
@@ -472,6 +483,9 @@ func (b *builder) randomOps(n int) {
 // small queues) and bystanders.
 func (b *builder) population(nVictims, nBy int) (victims, by []int) {
 	r := b.r
+	for nBy > 2 && len(b.alive)+nVictims+nBy+b.reserve > b.maxSess {
+		nBy--
+	}
 	for i := 0; i < nVictims; i++ {
 		q := queueSizes[r.intn(2)]
 		if r.chance(20) {
@@ -556,6 +570,7 @@ func genC07(o *genOpts, k int) *History {
 		b.add(Op{Op: "call", S: by[1], Proc: "p1"})
 		b.randomOps(3)
 	case "stalled-metacall":
+		b.reserve = 1
 		vs, _ := b.population(r.between(1, 2), r.between(2, 4))
 		b.randomOps(pre)
 		v := vs[0]
@@ -566,6 +581,7 @@ func genC07(o *genOpts, k int) *History {
 			break
 		}
 		b.add(Op{Op: "metacall", S: v, Proc: metaProcs[r.intn(3)]})
+		b.reserve = 0
 		x := pickInt(r, b.byIn(b.realmOf(v)))
 		switch r.intn(5) {
 		case 0:
@@ -648,8 +664,10 @@ func genC07(o *genOpts, k int) *History {
 		}
 		b.randomOps(post)
 	case "realm-churn":
+		b.reserve = 2
 		b.population(r.between(1, 2), r.between(2, 4))
 		b.randomOps(pre)
+		b.reserve = 0
 		b.add(Op{Op: "addrealm", Realm: "realm3"})
 		b.realmOn["realm3"] = true
 		b.track(false)
@@ -680,7 +698,9 @@ func genC07(o *genOpts, k int) *History {
 			b.randomOps(2)
 		}
 	case "meta-subscriber-stalled":
+		b.reserve = 3
 		vs, _ := b.population(r.between(1, 2), r.between(2, 4))
+		b.reserve = 0
 		for _, v := range vs {
 			for _, t := range metaTopics {
 				if r.chance(70) {
@@ -776,8 +796,10 @@ func genC06Base(o *genOpts, k int) *History {
 		}
 		b.add(Op{Op: "burst", Ops: ops})
 	case "hello-goodbye":
+		b.reserve = 2
 		b.population(0, r.between(1, 3))
 		b.randomOps(pre)
+		b.reserve = 0
 		b.track(false)
 		b.alive[len(b.alive)-1] = false
 		b.add(Op{Op: "hello_goodbye", Realm: h.Realms[0], Q: queueSizes[r.intn(3)]})
@@ -826,8 +848,10 @@ func genC06Base(o *genOpts, k int) *History {
 			b.add(Op{Op: "call", S: by[0], Proc: "p1", TimeoutMs: []int{0, 10000}[r.intn(2)], HoldUntil: "close"})
 		}
 	case "join-in-burst":
+		b.reserve = 5
 		b.population(0, r.between(1, 3))
 		b.randomOps(pre)
+		b.reserve = 0
 		for i, s := range b.stalled {
 			if s && b.alive[i] {
 				b.add(Op{Op: "resume", S: i})
@@ -879,7 +903,8 @@ func expandC06(o *genOpts, k int, base *History) []*History {
 	var out []*History
 	n := 0
 	mk := func(kind string, pos int, inBurst bool, ops []Op) {
-		h := base.clone()
+		hv := *base // ops are shared between the variants (never modified)
+		h := &hv
 		h.Ops = ops
 		h.Close = &CloseSpec{Kind: kind, Pos: pos, InBurst: inBurst}
 		if kind == "RemoveRealm" {
@@ -888,6 +913,7 @@ func expandC06(o *genOpts, k int, base *History) []*History {
 		if inBurst && pos < len(h.Ops) && stalledBefore(h.Ops, pos) {
 			// a handshake racing the close while the realm's close lock may be
 			// held across virtual time would stop the bubble's clock
+			h.Ops = cloneOps(ops)
 			if h.Ops[pos].Op == "burst" {
 				var keep []Op
 				for _, x := range h.Ops[pos].Ops {
@@ -920,7 +946,10 @@ func expandC06(o *genOpts, k int, base *History) []*History {
 			}
 		}
 		// trailing burst released together with the close
-		bb := &builder{r: r, h: base.clone(), c06: true, regs: map[string]int{}, realmOn: map[string]bool{}, maxSess: 12, maxOps: 200}
+		bb := &builder{r: r, h: base.clone(), c06: true, regs: map[string]int{}, realmOn: map[string]bool{}, maxSess: 8, maxOps: 200}
+		if o.thorough {
+			bb.maxSess = 12
+		}
 		for _, u := range base.Realms {
 			bb.realmOn[u] = true
 		}
